@@ -24,6 +24,8 @@ EXPECT = {
     "seed-C15-c": ["C15"], "seed-C17-c": ["C17"], "seed-C18-c": ["C18"], "seed-C19-c": ["C19"],
     "seed-C01-d": ["C01"], "seed-C02-d": ["C02"], "seed-C03-d": ["C03"], "seed-C04-d": ["C04"], "seed-C06-d": ["C06"], "seed-C09-d": ["C09"],
     "seed-C12-d": ["C12", "C05"], "seed-C13-d": ["C13"], "seed-C14-d": ["C14"], "seed-C16-d": ["C16", "C05"],
+    "seed-C05-e": ["C05"], "seed-C07-e": ["C07"], "seed-C08-e": ["C08"], "seed-C10-e": ["C10"], "seed-C11-e": ["C11", "C06"], "seed-C15-e": ["C15"],
+    "seed-C17-e": ["C17"], "seed-C18-e": ["C18"], "seed-C19-e": ["C19"],
 }
 
 
